@@ -12,7 +12,7 @@ use crate::core::*;
 use crate::mk::*;
 use crate::tape::{mix64, LogHash, Tape};
 use smoltcp::iface::SocketHandle;
-use smoltcp::socket::{icmp, tcp, udp};
+use smoltcp::socket::{icmp, raw, tcp, udp};
 use smoltcp::wire::{IpAddress, IpEndpoint, Ipv6Address, SixlowpanAddressContext};
 
 const PAN: u16 = 0xbeef;
@@ -82,6 +82,7 @@ struct Side {
     addrs: Vec<[u8; 16]>,
     udp: Vec<(SocketHandle, u16, u8)>,
     icmp: SocketHandle,
+    raw6: SocketHandle,
     icmp_hop: u8,
     ident: u16,
     tcp: SocketHandle,
@@ -118,6 +119,9 @@ struct C<'a> {
     /// 0 reliable in order, 1 reorder + duplicate, 2 reorder + duplicate + drop
     mode: u8,
     faults_on: bool,
+    /// epilogue only: the frames of the one datagram each side sends arrive in reverse order (FRAGN before FRAG1)
+    reverse_arrival: bool,
+    reverse_count: i64,
     tcp_on: bool,
     tcp_dst: [u8; 16],
     tcp_port: u16,
@@ -273,6 +277,14 @@ fn build_side(tape: &mut Tape, idx: usize, desc: &mut String) -> Side {
     };
     ic.set_hop_limit(icmp_hop);
     let icmp_h = node.sockets.add(ic);
+    // a raw socket for ICMPv6 sees every ICMPv6 datagram the node decompresses, header included (the only place where
+    // fields such as the hop limit of a received datagram can be observed)
+    let raw6 = node.sockets.add(raw::Socket::new(
+        Some(smoltcp::wire::IpVersion::Ipv6),
+        Some(smoltcp::wire::IpProtocol::Icmpv6),
+        raw::PacketBuffer::new(vec![raw::PacketMetadata::EMPTY; 32], vec![0u8; 16384]),
+        raw::PacketBuffer::new(vec![raw::PacketMetadata::EMPTY; 1], vec![0u8; 64]),
+    ));
     let mut ts = tcp::Socket::new(tcp::SocketBuffer::new(vec![0; 2048]), tcp::SocketBuffer::new(vec![0; 2048]));
     if tape.draw(3) == 0 {
         ts.set_hop_limit(Some(2 + tape.draw(250) as u8));
@@ -296,6 +308,7 @@ fn build_side(tape: &mut Tape, idx: usize, desc: &mut String) -> Side {
         addrs,
         udp: udps,
         icmp: icmp_h,
+        raw6,
         icmp_hop: icmp_hop.unwrap_or(64),
         ident,
         tcp: tcp_h,
@@ -345,6 +358,8 @@ pub fn run(tape: &mut Tape, props: Props, thorough: bool, trace_on: bool) -> Out
         link_seq: 0,
         mode,
         faults_on: mode != 0,
+        reverse_arrival: false,
+        reverse_count: 0,
         tcp_on,
         tcp_dst: [0; 16],
         tcp_port: 0,
@@ -628,6 +643,11 @@ fn poll_side(c: &mut C, i: usize) -> Result<(), Violation> {
         // the link
         let mut copies = 1;
         let mut delay = 1_000i64;
+        if c.reverse_arrival {
+            // each later frame overtakes the earlier ones
+            delay = (80_000 - 2_500 * c.reverse_count).max(1_000);
+            c.reverse_count += 1;
+        }
         if c.faults_on {
             match c.tape.draw(12) {
                 0 if c.mode == 2 => {
@@ -697,6 +717,35 @@ fn poll_side(c: &mut C, i: usize) -> Result<(), Violation> {
 fn drain(c: &mut C, i: usize) -> Result<(), Violation> {
     let on = (c.props.has("C20") || c.props.has("C09"));
     let name = c.s[i].node.name;
+    // what the raw ICMPv6 socket saw: each datagram is one the peer put on the wire, header fields included
+    loop {
+        let h = c.s[i].raw6;
+        let so = c.s[i].node.sockets.get_mut::<raw::Socket>(h);
+        let r = guard("raw::recv", || so.recv().ok().map(|b| b.to_vec()))?;
+        let Some(data) = r else { break };
+        if !c.props.has("C20") {
+            continue;
+        }
+        let Ok(p) = decode_ip(&data, &Verify::none(), true) else { continue };
+        let (Some(ip), Some(L4::Icmp6(ic))) = (&p.ip, &p.l4) else { continue };
+        let mut same_but_hop: Option<u8> = None;
+        let mut exact = false;
+        for d in &c.s[1 - i].wire {
+            if let (Some(dip), Some(L4::Icmp6(dic))) = (&d.pkt.ip, &d.pkt.l4) {
+                if dip.src == ip.src && dip.dst == ip.dst && dic.typ == ic.typ && dic.code == ic.code && dic.rest == ic.rest && dic.body == ic.body {
+                    if dip.hop == ip.hop {
+                        exact = true;
+                        break;
+                    }
+                    same_but_hop = Some(dip.hop);
+                }
+            }
+        }
+        c.stats.inc("6lo.raw-icmpv6-seen");
+        if let (false, Some(sent)) = (exact, same_but_hop) {
+            return Err(v("C20.deliver/hop-limit-differs", "delivery", format!("node {} decompressed an ICMPv6 datagram {} > {} type {} with hop limit {}; the peer sent it with hop limit {}", name, ip.src, ip.dst, ic.typ, ip.hop, sent)));
+        }
+    }
     for k in 0..c.s[i].udp.len() {
         let (h, port, _) = c.s[i].udp[k];
         loop {
@@ -1098,6 +1147,13 @@ fn body(c: &mut C, thorough: bool) -> Result<(), Violation> {
         poll_side(c, 0)?;
         poll_side(c, 1)?;
         let marks = [c.s[0].wire.len(), c.s[1].wire.len()];
+        // (without a TCP connection or a backlog of earlier datagrams whose fragments could claim the single reassembly
+        // slot in between, the fragments of these two datagrams may as well arrive back to front)
+        let backlog = c.s.iter().any(|s| s.pend_udp.iter().any(|p| !p.oversize) || s.echos.iter().any(|e| !e.on_wire && !e.oversize) || s.reasm.is_some());
+        if !c.tcp_on && !backlog && c.link.is_empty() && c.tape.draw(2) == 0 {
+            c.reverse_arrival = true;
+            c.stats.inc("6lo.epilogue-fragments-arrive-in-reverse-order");
+        }
         for i in 0..2 {
             let to = 1 - i;
             let k = c.tape.draw(3) as usize;
@@ -1123,6 +1179,7 @@ fn body(c: &mut C, thorough: bool) -> Result<(), Violation> {
             }
             c.now = next_time(c, 1_000_000)?;
         }
+        c.reverse_arrival = false;
         if (c.props.has("C20") || c.props.has("C09")) {
             for i in 0..2 {
                 let ports: Vec<u16> = c.s[1 - i].udp.iter().map(|u| u.1).collect();
